@@ -277,6 +277,8 @@ int main()
   std::vector<std::vector<Op>> thr;
   int section = 0; // 0 pre, 1 threads, 2 post
   long trial = -1;
+  std::vector<int> schedule;
+  bool use_sched = false;
   std::string out;
   while (std::getline(std::cin, line))
   {
@@ -285,6 +287,14 @@ int main()
     {
       trial = std::atol(line.c_str() + 6);
       pre.clear(); post.clear(); thr.clear(); section = 0;
+      schedule.clear(); use_sched = false;
+      continue;
+    }
+    if (line.compare(0, 5, "SCHED") == 0)
+    {
+      use_sched = true;
+      std::istringstream is(line.substr(5));
+      int x; while (is >> x) schedule.push_back(x);
       continue;
     }
     if (line[0] == 'T' && line[1] == ' ') { thr.emplace_back(); section = 1; continue; }
@@ -306,19 +316,31 @@ int main()
       std::atomic<int> ready{0};
       std::atomic<bool> go{false};
       std::vector<std::thread> ts;
+#ifdef TROMPELOEIL_CUSTOM_RECURSIVE_MUTEX
+      if (use_sched) sched::begin_trial(static_cast<int>(thr.size()), schedule);
+#endif
       for (size_t ti = 0; ti < thr.size(); ++ti)
       {
         ts.emplace_back([&, ti] {
           t_log = &logs[ti];
+#ifdef TROMPELOEIL_CUSTOM_RECURSIVE_MUTEX
+          if (use_sched) sched::thread_begin(static_cast<int>(ti));
+#endif
           ready.fetch_add(1, std::memory_order_release);
           while (!go.load(std::memory_order_acquire)) {}
           for (size_t i = 0; i < thr[ti].size(); ++i) exec(thr[ti][i], static_cast<int>(i));
           t_log = nullptr;
+#ifdef TROMPELOEIL_CUSTOM_RECURSIVE_MUTEX
+          if (use_sched) sched::thread_end();
+#endif
         });
       }
       while (ready.load(std::memory_order_acquire) != static_cast<int>(thr.size())) {}
       go.store(true, std::memory_order_release);
       for (auto& t : ts) t.join();
+#ifdef TROMPELOEIL_CUSTOM_RECURSIVE_MUTEX
+      if (use_sched) { out += "SCHEDLOG " + sched::st().log + "\n"; sched::end_trial(); }
+#endif
       for (size_t ti = 0; ti < thr.size(); ++ti) { out += "T " + std::to_string(ti) + "\n" + logs[ti]; }
       for (size_t i = 0; i < post.size(); ++i) exec(post[i], static_cast<int>(i));
       out += "POST\n" + g_main_log; g_main_log.clear();
